@@ -18,6 +18,7 @@ import logging
 import math
 import os
 import pkgutil
+import re
 import sys
 from fractions import Fraction
 
@@ -257,7 +258,8 @@ def option_rows():
             for name, p in o.ParameterDict.items():
                 if type(p).__name__ == 'intParameter' and p.ValuesEnum is not None:
                     c = conv.get(name, ())
-                    out.append({'i': idx[(cls_name, name)], 'cls': cls_name, 'name': name, 'strict': c[:1] == ('strict',),
+                    label = ' '.join(re.findall(r'Unknown (.*?) input value', inspect.getsource(p.ValuesEnum)))
+                    out.append({'i': idx[(cls_name, name)], 'cls': cls_name, 'name': name, 'strict': c[:1] == ('strict',), 'named': name in label,
                                 'else_to': int(getattr(p.ValuesEnum, c[1]).int_value) if c[:1] == ('else',) else None,
                                 'members': [int(m.int_value) for m in p.ValuesEnum], 'enum': p.ValuesEnum.__name__})
         _CACHE['opts'] = out
@@ -266,7 +268,7 @@ def option_rows():
 
 def gen_optiontable(ctx):
     rs = option_rows()
-    items = [f'({r["i"]}%nat, {qconv.blit(r["strict"])}, ' + ('None' if r['else_to'] is None else f'Some {qconv.zlit(r["else_to"])}')
+    items = [f'({r["i"]}%nat, {qconv.blit(r["strict"])}, {qconv.blit(r["named"])}, ' + ('None' if r['else_to'] is None else f'Some {qconv.zlit(r["else_to"])}')
              + ', [' + '; '.join(qconv.zlit(n) for n in r['members']) + '])' for r in rs]
     text = ('(* GENERATED by tools/gen/paramtable.py: option parameters (row of param_table, text conversion strict?, enum members) *)\n'
             'From Coq Require Import ZArith List.\nFrom Verif Require Import Model.TokenReader.\nImport ListNotations.\n\n'
